@@ -15,6 +15,8 @@
 -/
 import Mhd.Proofs.LoopProgress
 import Mhd.Proofs.LoopEpoll
+import Mhd.Proofs.LoopTpc
+import Mhd.Proofs.LoopConnSM
 
 namespace Mhd.C06
 open Mhd.Loop Mhd.Gen.Loop
@@ -315,5 +317,209 @@ example : ∃ d, Reach Witness.ops Witness.needs false d ∧ d.conns.length = 1 
     ⟨by simp, by simp, by simp, by simp, rfl, rfl, rfl⟩), ?_, ?_⟩
   · decide
   · refine ⟨by decide, ?_, ?_⟩ <;> intro id _ <;> rfl
+
+/-! ## thread-per-connection (thread_main_handle_connection)
+
+  One thread per connection; model `Mhd.Model.LoopTpc`.  The thread blocks in select()/poll() on its own socket,
+  or — while the connection is suspended — on the daemon's inter-thread channel for at most 250 ms.  The daemon
+  thread clears `suspended` when it processes a resume (`tpcResumed`).  Same laws of the abstract step as above. -/
+
+/-- the post-resume idle call is followed by a second look at `con->suspended` (regenerated from daemon.c;
+    false on a tree without the F29 fix, and then this file does not compile) -/
+theorem code_tpc_rechecks_suspend : tpcRechecksSuspend = true := by decide
+
+/-- the thread remembers a suspension made by its own handler in `con->suspend_seen`, set in
+    internal_suspend_connection_ and tested next to `was_suspended` (regenerated from daemon.c; false on a tree
+    without the F30 fix, and then this file does not compile) -/
+theorem code_tpc_marks_suspend : tpcMarksSuspend = true := by decide
+
+/-- hence the daemon thread may process a resume at any moment (`Noticed` is no restriction for the loop of /repo):
+    the histories of `TReach … tpcMarksSuspend` contain resumes at arbitrary points between iterations -/
+theorem tpc_resume_any_time (t : TState W) : Noticed tpcMarksSuspend t := Or.inl code_tpc_marks_suspend
+
+/-- hence the loop of /repo is the re-checking, early-marking one -/
+theorem tpcHead_is_rechecking (ops : Ops W) (t : TState W) : tpcHead ops t = tpcHeadWith ops true tpcMarksSuspend t := by
+  unfold tpcHead; rw [code_tpc_rechecks_suspend]
+theorem tpcIter_is_rechecking (ops : Ops W) (t : TState W) (rr wr er : Bool) :
+    tpcIter ops t rr wr er = tpcIterWith ops true tpcMarksSuspend t rr wr er := by
+  unfold tpcIter; rw [code_tpc_rechecks_suspend]
+
+/-- The invariant of a connection's thread (an active connection that is past the post-resume idle call is in sync;
+    a loop that marks early knows every suspension) holds in every state reachable from the creation of the thread by
+    iterations with arbitrary socket readiness and by resumes — resumes at any moment if the loop marks a
+    suspension when its handler suspends (it does: `code_tpc_marks_suspend`, `tpc_resume_any_time`), otherwise
+    (`Noticed`) only after the thread has seen `con->suspended`. -/
+theorem tpc_invariant_reachable {ops : Ops W} {needs : Local W → Bool} (L : Laws ops needs) {t : TState W}
+    (h : TReach ops needs tpcMarksSuspend t) : TInv needs tpcMarksSuspend t :=
+  treach_inv L h
+
+/-- **No lost wake-up, thread-per-connection.**  In every reachable state, when the thread reaches its blocking call:
+    * the connection is suspended ⇒ the call waits on the inter-thread channel, for a bounded time (a resume wakes
+      it; a consumed signal only delays it);
+    * the connection is active ⇒ the call is on the socket, with zero timeout if the connection has work that needs
+      no network input, watching readability / writability when the connection waits for them;
+    * the call has no timeout ⇒ the connection is not suspended, and if active it has no work that could proceed
+      without new network input. -/
+theorem tpc_no_lost_wakeup {ops : Ops W} {needs : Local W → Bool} (L : Laws ops needs) {t : TState W}
+    (h : TReach ops needs tpcMarksSuspend t) {t1 : TState W} {b : TBlock} (hb : tpcHead ops t = (t1, some b)) :
+    (t1.wh = .susp → b = suspendedWait) ∧
+    (t1.wh = .active → b.onItc = false ∧ (needs t1.c.loc = true → b.wait = .zero) ∧
+        (t1.c.loc.eli.hasRead = true → b.r = true) ∧ (t1.c.loc.eli.isWrite = true → b.w = true)) ∧
+    (b.wait = .forever → t1.wh ≠ .susp ∧ (t1.wh = .active → needs t1.c.loc = false)) := by
+  rw [tpcHead_is_rechecking] at hb
+  exact tpc_nlw L tpcMarksSuspend (treach_inv L h) hb
+
+/-- the wait of a suspended connection's thread: the inter-thread channel is in the wait set and the wait is bounded -/
+theorem tpc_suspended_wait : suspendedWait.onItc = true ∧ suspendedWait.wait = .bounded250 := ⟨rfl, rfl⟩
+
+/-- **A resume is served.**  A thread that has noticed the suspension and whose connection the daemon thread
+    resumed passes the connection through handle_idle before it blocks again (whatever the two source-text facts). -/
+theorem tpc_resume_is_served (ops : Ops W) (recheck early : Bool) {t : TState W} (hc : t.c.loc.st ≠ stClosed)
+    (hs : t.wh = .susp) (hw : t.wasSuspended = true) :
+    ∃ evs, (tpcHeadWith ops recheck early (tpcResumed t)).1.log = evs ++ t.log ∧ Ev.idle t.c.id ∈ evs := by
+  have e : tpcResumed t = { t with wh := .active } := by unfold tpcResumed; rw [if_pos hs]
+  rw [e]
+  exact tpc_resumed_idles (ops := ops) recheck early (t := { t with wh := .active }) hc (fun h => by cases h) hw
+
+/-- a loop that marks a suspension when the handler suspends needs no discipline of the daemon thread -/
+theorem tpc_marking_resume_any_time (t : TState W) : Noticed true t := Or.inl rfl
+
+/-- … and in every reachable state of such a loop a suspended connection is known to be suspended -/
+theorem tpc_marking_knows {ops : Ops W} {needs : Local W → Bool} (L : Laws ops needs) {t : TState W}
+    (h : TReach ops needs true t) (hs : t.wh = .susp) : t.wasSuspended = true :=
+  (treach_inv L h).marked rfl hs
+
+/-- **One fair iteration.**  A connection that awaits its reply (PROCESS or WRITE state), whose thread's blocking
+    call returns with the socket writable if it waits for writability and without socket error: the thread leaves
+    the loop (connection closed), or the connection left the active list (closed, or suspended by its own handler),
+    or its reply is complete, or its measure `rank` is strictly smaller. -/
+theorem tpc_progress_one_iteration {ops : Ops W} {needs awaiting : Local W → Bool} {replies rank : Local W → Nat}
+    (L : Laws ops needs) (PL : ProgLaws ops awaiting replies rank) {t : TState W}
+    (hw : t.wh = .active) (hs : t.wasSuspended = false) (ha : awaiting t.c.loc = true)
+    (he : t.c.loc.eli = .process ∨ t.c.loc.eli = .write) (rr wr : Bool) (hfair : t.c.loc.eli = .write → wr = true) :
+    match tpcIter ops t rr wr false with
+    | none => True
+    | some t' => t'.wh ≠ .active ∨ replies t.c.loc < replies t'.c.loc ∨
+        (awaiting t'.c.loc = true ∧ replies t'.c.loc = replies t.c.loc ∧ rank t'.c.loc < rank t.c.loc ∧
+          (t'.c.loc.eli = .process ∨ t'.c.loc.eli = .write) ∧ t'.wasSuspended = false) :=
+  tpc_progress_iter L PL tpcRechecksSuspend tpcMarksSuspend hw hs ha he rr wr hfair
+
+/-- **Progress, thread-per-connection.**  For every history `H` of returns of the thread's blocking call and resumes
+    that is fair for the connection (`TFair`) and contains more than `rank` iterations: at some point of `H` the thread
+    has left the loop (connection closed), or the connection is no longer active (closed, or suspended by its own
+    handler), or its reply is completely sent. -/
+theorem tpc_progress {ops : Ops W} {needs awaiting : Local W → Bool} {replies rank : Local W → Nat}
+    (L : Laws ops needs) (PL : ProgLaws ops awaiting replies rank) (H : List TStep) (t : TState W)
+    (hw : t.wh = .active) (hs : t.wasSuspended = false) (ha : awaiting t.c.loc = true)
+    (he : t.c.loc.eli = .process ∨ t.c.loc.eli = .write)
+    (hfair : TFair ops tpcRechecksSuspend tpcMarksSuspend t H) (hr : rank t.c.loc < nIters H) :
+    ∃ H1 H2, H = H1 ++ H2 ∧
+      match tpcRun ops tpcRechecksSuspend tpcMarksSuspend t H1 with
+      | none => True
+      | some t' => t'.wh ≠ .active ∨ replies t.c.loc < replies t'.c.loc :=
+  tpc_progress_run L PL tpcRechecksSuspend tpcMarksSuspend H t hw hs ha he hfair hr
+
+/-- Non-vacuity (progress): the lawful instance `Demo`, a thread whose connection needs two more idle calls, three
+    fair iterations: after two of them the reply is complete. -/
+example :
+    TFair Demo.ops tpcRechecksSuspend tpcMarksSuspend { c := { id := 0, loc := Demo.mkLoc 2 .process }, wh := .active }
+      [.iter false false false, .resumed, .iter false false false, .iter false false false] ∧
+    (tpcRun Demo.ops tpcRechecksSuspend tpcMarksSuspend { c := { id := 0, loc := Demo.mkLoc 2 .process }, wh := .active }
+      [.iter false false false, .resumed, .iter false false false]).map (fun t => (t.wh, Demo.replies t.c.loc)) = some (.active, 1) := by
+  refine ⟨?_, by decide⟩
+  simp only [TFair]
+  decide
+
+/-! ### the two source-text facts are what makes it hold -/
+
+/-- **Without the re-check (the loop before the F29 fix) a resume wakes nobody.**  Lawful `ops`; the handler suspends,
+    the thread notices, the daemon resumes, the post-resume idle call suspends again: the loop with the re-check waits
+    on the inter-thread channel; the loop without it blocks on the client socket with no timeout while the connection
+    is suspended — the next resume finds nobody waiting for it. -/
+theorem tpc_no_recheck_loses_wakeup :
+    Laws (TpcWitness.ops true) TpcWitness.needs ∧
+    (∀ rc, ∃ t, tpcRun (TpcWitness.ops true) rc false TpcWitness.t0 [.iter true false false, .iter false false false, .resumed] = some t ∧
+        t.wh = .active ∧ t.wasSuspended = true ∧
+        (tpcHeadWith (TpcWitness.ops true) true false t).2 = some suspendedWait ∧
+        (tpcHeadWith (TpcWitness.ops true) false false t).1.wh = .susp ∧
+        (tpcHeadWith (TpcWitness.ops true) false false t).2 =
+          some { wait := .forever, onItc := false, r := true, w := false, e := false }) := by
+  refine ⟨TpcWitness.laws true, fun rc => ?_⟩
+  cases rc <;> exact ⟨_, rfl, by decide⟩
+
+/-- **A resume processed before the thread has noticed the suspension is lost unless the loop marks early.**
+    Lawful `ops`; the request arrives, the handler suspends the connection and the application has the reply ready;
+    the daemon thread processes the resume before the connection's thread is back at the loop head (`¬ Noticed`).
+    The loop that only looks at `con->suspended` blocks on the socket for readability with no timeout although the
+    connection has work that needs no input; the loop that marks the suspension runs handle_idle and waits for
+    writability. -/
+theorem tpc_unnoticed_resume_loses_wakeup :
+    Laws (TpcWitness.ops false) TpcWitness.needs ∧
+    (∃ t ts, tpcRun (TpcWitness.ops false) true false TpcWitness.t0 [.iter true false false] = some ts ∧ ¬ Noticed false ts ∧
+        tpcRun (TpcWitness.ops false) true false TpcWitness.t0 [.iter true false false, .resumed] = some t ∧
+        (tpcHeadWith (TpcWitness.ops false) true false t).1.wh = .active ∧
+        TpcWitness.needs (tpcHeadWith (TpcWitness.ops false) true false t).1.c.loc = true ∧
+        (tpcHeadWith (TpcWitness.ops false) true false t).2 =
+          some { wait := .forever, onItc := false, r := true, w := false, e := false }) ∧
+    (∃ t, tpcRun (TpcWitness.ops false) true true TpcWitness.t0 [.iter true false false, .resumed] = some t ∧
+        TpcWitness.needs (tpcHeadWith (TpcWitness.ops false) true true t).1.c.loc = false ∧
+        (tpcHeadWith (TpcWitness.ops false) true true t).2 =
+          some { wait := .forever, onItc := false, r := false, w := true, e := false }) := by
+  refine ⟨TpcWitness.laws false, ⟨_, _, rfl, ?_, rfl, by decide⟩, ⟨_, rfl, by decide⟩⟩
+  intro h
+  rcases h with h | h
+  · cases h
+  · exact absurd (h (by decide)) (by decide)
+
+/-- … so without the discipline the invariant of `tpc_invariant_reachable` is not kept by that loop. -/
+theorem tpc_unnoticed_resume_breaks_invariant :
+    ∃ t, tpcRun (TpcWitness.ops false) true false TpcWitness.t0 [.iter true false false, .resumed] = some t ∧
+      ¬ TInv TpcWitness.needs false t := by
+  refine ⟨_, rfl, fun h => ?_⟩
+  have := h.sync (by decide) (by decide) (by decide)
+  revert this; decide
+
+/-- Non-vacuity with the resume at the critical moment: the loop of /repo, the handler suspends, the daemon thread
+    processes the resume at once (`tpc_resume_any_time`): the state is reachable, the thread runs handle_idle and then
+    waits for writability. -/
+example : ∃ t, TReach (TpcWitness.ops false) TpcWitness.needs tpcMarksSuspend t ∧ t.wh = .active ∧
+    (tpcHead (TpcWitness.ops false) t).1.log = [.idle 0, .idle 0, .read 0] ∧
+    (tpcHead (TpcWitness.ops false) t).2 = some { wait := .forever, onItc := false, r := false, w := true, e := false } := by
+  have h0 : TReach (TpcWitness.ops false) TpcWitness.needs tpcMarksSuspend TpcWitness.t0 :=
+    TReach.init TpcWitness.c0 (fun h => by revert h; decide)
+  have h1 := TReach.iter (t' := _) true false false h0 rfl
+  have h2 := TReach.resumed h1 (tpc_resume_any_time _)
+  exact ⟨_, h2, by decide, by decide, by decide⟩
+
+/-- Non-vacuity of `tpc_no_lost_wakeup` / `tpc_invariant_reachable`: a reachable state of the loop of /repo in which
+    the handler suspended, the thread noticed, the daemon resumed — and the next blocking call is on the socket for
+    writability (the reply queued by the post-resume idle call). -/
+example : ∃ t, TReach (TpcWitness.ops false) TpcWitness.needs tpcMarksSuspend t ∧ t.wh = .active ∧ t.wasSuspended = true ∧
+    (tpcHead (TpcWitness.ops false) t).2 = some { wait := .forever, onItc := false, r := false, w := true, e := false } := by
+  have h0 : TReach (TpcWitness.ops false) TpcWitness.needs tpcMarksSuspend TpcWitness.t0 :=
+    TReach.init TpcWitness.c0 (fun h => by revert h; decide)
+  have h1 := TReach.iter (t' := _) true false false h0 rfl
+  have h2 := TReach.iter (t' := _) false false false h1 rfl
+  have h3 := TReach.resumed h2 (Or.inr (fun _ => by decide))
+  exact ⟨_, h3, by decide, by decide, by decide⟩
+
+/-! ## tie to the C05 connection model -/
+
+/-- **The concrete connection step waits for what the table says.**  `Mhd.Model.ConnSM.eventLoopInfo` (C05's
+    hand-written model of MHD_connection_update_event_loop_info) gives, for every connection state and every value of
+    the other fields, the wait class of the regenerated table that `LawTable` / `round_wait_class` use: sending states
+    WRITE, unready / full-request states PROCESS, line / header / footer receiving states READ, CLOSED → CLEANUP.
+    (The remaining laws — `Laws`, `ProgLaws` — are not yet proved for ConnSM's step: they stay assumptions monitored on
+    every logged handler call.) -/
+theorem connsm_wait_class_in_table {σ : Type} (c : Mhd.ConnSM.Conn σ) :
+    (c.state.toNat ∈ writeStates → connsmEliCode (Mhd.ConnSM.eventLoopInfo c) = eliWrite) ∧
+    (c.state.toNat ∈ processStates → connsmEliCode (Mhd.ConnSM.eventLoopInfo c) = eliProcess) ∧
+    (c.state.toNat ∈ readStates → connsmEliCode (Mhd.ConnSM.eventLoopInfo c) = eliRead) ∧
+    (c.state.toNat = stClosed → connsmEliCode (Mhd.ConnSM.eventLoopInfo c) = eliCleanup) :=
+  connsm_eli_in_table c
+
+/-- non-vacuity: every class of the table is inhabited by a state of the C05 model -/
+example : Mhd.Gen.ConnState.CState.headersSending.toNat ∈ writeStates ∧ Mhd.Gen.ConnState.CState.init.toNat ∈ readStates ∧
+    Mhd.Gen.ConnState.CState.fullReqReceived.toNat ∈ processStates ∧ Mhd.Gen.ConnState.CState.closed.toNat = stClosed := by decide
 
 end Mhd.C06
